@@ -165,7 +165,7 @@ func runProgram(o RunOpts, s Scenario) (Result, string, error) {
 	var res Result
 	rb, err := os.ReadFile(resFile)
 	if err != nil {
-		return res, out.String(), fmt.Errorf("program wrote no result (exit: %v): %s", runErr, clip(out.String()))
+		return res, out.String(), fmt.Errorf("program wrote no result (exit: %v): %s", runErr, vhClip(out.String()))
 	}
 	if err := json.Unmarshal(rb, &res); err != nil {
 		return res, out.String(), err
@@ -244,7 +244,7 @@ func refParse(data string) ([]Entry, error) {
 			continue
 		}
 		if len(l) < 2 || l[0] != '[' || l[len(l)-1] != ']' {
-			return es, fmt.Errorf("line %d: expected an entry header, found %q", i+1, clip(l))
+			return es, fmt.Errorf("line %d: expected an entry header, found %q", i+1, vhClip(l))
 		}
 		id := l[1 : len(l)-1]
 		i++
@@ -273,7 +273,7 @@ func findEntry(es []Entry, id string) int {
 func describe(es []Entry) string {
 	var parts []string
 	for _, e := range es {
-		parts = append(parts, fmt.Sprintf("[%s]=%q", e.ID, clip(e.Body)))
+		parts = append(parts, fmt.Sprintf("[%s]=%q", e.ID, vhClip(e.Body)))
 	}
 	return strings.Join(parts, " ")
 }
@@ -307,7 +307,7 @@ func parseSummaryLists(out string) summaryLists {
 	return s
 }
 
-func naturalCmp(a, b string) int {
+func vhNaturalCmp(a, b string) int {
 	i, j := 0, 0
 	isD := func(c byte) bool { return c >= '0' && c <= '9' }
 	for i < len(a) && j < len(b) {
@@ -353,4 +353,4 @@ func naturalCmp(a, b string) int {
 }
 
 func strp(s string) *string { return &s }
-func boolp(b bool) *bool    { return &b }
+func vhBoolp(b bool) *bool    { return &b }
